@@ -100,6 +100,8 @@ func c17Signatures(text string) (sigs []string, first string) {
 
 func c17Run(c c17Case) (v vVerdict) {
 	before := c17LogSize()
+	vMonQuiet = true
+	defer func() { vMonQuiet = false }()
 	var inner vVerdict
 	switch c.Kind {
 	case "lifecycle":
